@@ -14,7 +14,7 @@ def one(runs_q, runs_t, **kw):
 
 PROPS = {
     "C11": one(
-        120_000, 6_000_000,
+        120_000, 40_000_000,
         anchor_files=["io/StringScanner.go"],
         rule="A case is one history on one StringScanner: content of 0-12 characters over {a, b, LF, CR, e-acute, U+1F600} "
              "and 1-40 operations from read/unread/unreadmany/peek/peekline/peekcol/line/col/reset generated in biased phases. "
@@ -29,7 +29,7 @@ PROPS = {
                      "fault kinds: none exist at this surface (in-memory scanner, no I/O)"],
     ),
     "C17": one(
-        60_000, 3_000_000,
+        60_000, 15_000_000,
         anchor_files=["tokenizers/utilities/CharReferenceMap.go", "tokenizers/utilities/CharReferenceInterval.go"],
         rule="A case is one history of 1-30 AddInterval / AddDefaultInterval / Clear / Lookup operations (endpoints and probes from "
              "{0,'a',0xFF,0x100,0x101,0x2000,0xFFFE} and their neighbours, references A, B, none) on one of: a raw CharReferenceMap, "
@@ -44,7 +44,7 @@ PROPS = {
                      "fault kinds: none exist at this surface"],
     ),
     "C16": one(
-        60_000, 3_000_000,
+        60_000, 20_000_000,
         anchor_files=["tokenizers/generic/SymbolNode.go", "tokenizers/generic/SymbolRootNode.go", "tokenizers/generic/GenericSymbolState.go"],
         rule="A case is one history of 2-24 interleaved Add(symbol, own type) and read operations on one SymbolRootNode or GenericSymbolState: "
              "symbols of length 1-3 over {<,=,>,!,lambda} biased to share prefixes, inputs that are a registered symbol, a symbol cut short, "
@@ -59,7 +59,7 @@ PROPS = {
                      "fault kinds: none exist at this surface (end of input inside a symbol is an input, not a fault)"],
     ),
     "C20": one(
-        60_000, 3_000_000,
+        60_000, 30_000_000,
         anchor_files=["variants/Variant.go"],
         rule="A case is one history of 2-24 operations over 4 variant handles and 2 caller-owned slices: construct from each host type "
              "(int, int32, uint, uint32, int64, float32, float64, bool, string, time.Time, time.Duration, []*Variant, *Variant, nil, struct, []int, map), "
@@ -132,7 +132,7 @@ PROPS = {
                      "panics of the library inside a step are compared like results (same on fresh instance) and counted as observations; they are C03's business"],
     ),
     "C18": one(
-        60_000, 3_000_000,
+        60_000, 10_000_000,
         anchor_files=["calculator/variables/VariableCollection.go", "calculator/functions/FunctionCollection.go", "calculator/ExpressionCalculator.go",
                       "mustache/MustacheTemplate.go", "calculator/parsers/ExpressionParser.go", "mustache/parsers/MustacheParser.go"],
         rule="A case is one history: (a) 3-30 operations (Add, Get, GetAll + mutation of the returned slice, FindIndexByName, FindByName, Locate, Remove, "
@@ -144,7 +144,7 @@ PROPS = {
         state_measure="distinct (scenario, size of the model collection, auto-variables flag, operation) tuples",
         fault_kinds=[],
         probes=["getall_mutated", "case_insensitive_hit", "first_added_wins_checked", "auto_variables_applied", "default_variable_removed",
-                "var_not_found_named", "func_not_found_named"],
+                "var_not_found_named", "func_not_found_named", "default_function_wins_checked", "custom_function_resolved"],
         real=["variables.VariableCollection", "functions.FunctionCollection", "ExpressionCalculator", "ExpressionParser", "MustacheTemplate", "MustacheParser"],
         stub=["recordingCollection (a VariableCollection whose FindByName finds nothing, to read the calculator's discovered names in order)"],
         assumptions=["discovery is checked only for generated inputs whose identifier roles are known to the generator",
@@ -156,8 +156,8 @@ PROPS = {
         quick={"batches": [dict(name="fault-injecting histories", runs=16_000, wall=150, recheck=300, args=["-sim.faults", "on"]),
                            dict(name="fault-free histories under the same monitor", runs=8_000, wall=150, recheck=200, args=["-sim.faults", "off"])],
                "minimise_wall": 30},
-        thorough={"batches": [dict(name="fault-injecting histories", runs=1_200_000, wall=1500, recheck=2000, args=["-sim.faults", "on"]),
-                              dict(name="fault-free histories under the same monitor", runs=500_000, wall=1500, recheck=1000, args=["-sim.faults", "off"])],
+        thorough={"batches": [dict(name="fault-injecting histories", runs=5_000_000, wall=1500, recheck=2000, args=["-sim.faults", "on"]),
+                              dict(name="fault-free histories under the same monitor", runs=2_000_000, wall=1500, recheck=1000, args=["-sim.faults", "off"])],
                   "minimise_wall": 120},
         anchor_files=["calculator/functions/DelegatedFunction.go", "calculator/ExpressionCalculator.go", "tokenizers/AbstractTokenizer.go",
                       "calculator/parsers/ExpressionParser.go", "mustache/parsers/MustacheParser.go", "mustache/MustacheTemplate.go"],
@@ -168,7 +168,7 @@ PROPS = {
              "inside the operation). A second batch runs the same generators without faults under the same monitor. Non-trivial: at least one fault "
              "fired inside an operation. Distinct: hash of (task, fault switch).",
         state_measure="distinct (instance kind, consumption mode, fired fault kind, outcome kind) tuples",
-        fault_kinds=["fail_at", "eof_at", "abandon_after", "op_error", "var_missing", "fn_error", "fn_panic", "fn_error_plain"],
+        fault_kinds=["fail_at", "eof_at", "abandon_after", "op_error", "var_missing", "fn_error", "fn_panic", "fn_error_plain", "state_nil", "state_empty"],
         probes=["fault_free_runs"],
         real=["all tokenizers, parsers, ExpressionCalculator, MustacheTemplate, DefaultFunctionCollection (instrumented copy)"],
         stub=["SimScanner", "SimOps", "SimVariables", "Faulty / PlainFaulty functions (pass-through except where a fault is scheduled)"],
